@@ -291,7 +291,6 @@ pub fn run(cases_path: &str, out_path: &str, tier: &str, seed: u64, which: &str)
                                 // a v3 certification / key signature may be unsupported by the verify API: that is not a digest question
                                 if let Err(err) = &vr {
                                     let msg = err.to_string();
-                                    if sv == 3 && t >= 16 { return Ok(format!("v3 non-data verify not supported: {msg}")); }
                                     return Err(format!("VERIFY side: a signature over the RFC preimage is rejected: {msg}"));
                                 }
                                 if rv.last().as_deref() != Some(&want[..]) {
@@ -346,6 +345,48 @@ pub fn run(cases_path: &str, out_path: &str, tier: &str, seed: u64, which: &str)
                     Ok(())
                 });
                 sink.put(rec("c11.api", json!({"key": name, "text": text}), r.is_ok(), "digest", json!({"outcome": r.class(), "detail": r.detail()})));
+            }
+        }
+        // cleartext signature framework: the digest is over the text with trailing SPACE and TAB (only those) removed from every line,
+        // lines joined by CRLF (RFC 9580 7.2), then the usual text-signature tail
+        {
+            use pgp::composed::CleartextSignedMessage;
+            let texts: Vec<String> = vec![
+                "plain\nlines \t \nend".into(), "ideographic space at end\u{3000}\nnext".into(), "nbsp\u{a0}\nvt\u{b}\nff\u{c}\nnel\u{85}\nls\u{2028}x".into(),
+                "- dash line\n-- two\n\ntrailing tabs\t\t\nlast\u{2003}".into(), "cr inside\rline\nnext \r\nend".into(), "\u{3000}\n \n\t".into(),
+            ];
+            for (kn, k, sv) in [("eddsa-v4", &k4e, 4u64), ("ed25519-v6", &k6, 6u64)] {
+                for (ti, text) in texts.iter().enumerate() {
+                    nontrivial.fetch_add(1, std::sync::atomic::Ordering::Relaxed);
+                    let r = guard(|| -> Result<(), String> {
+                        let e = |x: pgp::errors::Error| x.to_string();
+                        let rs = RecSigner::new(&k.primary_key);
+                        let m = CleartextSignedMessage::sign(rng(seed), text, &rs, &Password::empty()).map_err(e)?;
+                        let sig = m.signatures().first().ok_or("no signature")?.clone();
+                        let cfg = sig.config().ok_or("cfg")?.clone();
+                        // independent signed form
+                        let parts: Vec<&str> = text.split('\n').collect();
+                        let form: String = parts.iter().enumerate().map(|(i, l)| (if i + 1 < parts.len() { l.strip_suffix('\r').unwrap_or(l) } else { l }).trim_end_matches([' ', '\t'])).collect::<Vec<_>>().join("\r\n");
+                        let toks: Vec<Value> = cases.iter().find(|c| c["kind"] == "digest" && c["typ"] == 1 && c["sigver"] == sv).ok_or("no case")?["preimage"].as_array().unwrap().clone();
+                        // the document token is already canonical here
+                        let toks: Vec<Value> = toks.into_iter().map(|mut t| { if t["k"] == "doc" { t["a"] = json!("binary"); } t }).collect();
+                        let ctx = Ctx { cfg: &cfg, doc: form.as_bytes(), signee: vec![], primary: vec![], subkey: vec![], selfkey: vec![], idbody: vec![] };
+                        let want = digest(cfg.hash_alg, &[&concretise(&toks, &ctx)?]);
+                        if rs.last().as_deref() != Some(&want[..]) { return Err("cleartext SIGN side: digest differs from the RFC 9580 7.2 signed form".into()); }
+                        // and the verifier must take the same form, also after armoring
+                        let pubk = k.to_public_key();
+                        let arm = m.to_armored_string(Default::default()).map_err(e)?;
+                        let (back, _) = CleartextSignedMessage::from_string(&arm).map_err(e)?;
+                        let rv = RecVerifier::new(&pubk.primary_key);
+                        match back.verify(&rv) {
+                            Ok(_) => if rv.last().as_deref() != Some(&want[..]) { return Err("cleartext VERIFY side: digest differs from the RFC 9580 7.2 signed form".into()); },
+                            // (a text ending in a lone CR does not survive the framework: C16's open finding, not a digest question)
+                            Err(x) => if !form.ends_with('\r') && !text.ends_with('\r') { return Err(format!("cleartext VERIFY side: {x}")); },
+                        }
+                        Ok(())
+                    });
+                    sink.put(rec("c11.cleartext", json!({"key": kn, "text": ti}), r.is_ok(), "digest", json!({"outcome": r.class(), "detail": r.detail()})));
+                }
             }
         }
         // documents around the reader's block sizes, with every line-ending tail, through Signature::verify under read schedules,
@@ -581,7 +622,7 @@ pub fn run(cases_path: &str, out_path: &str, tier: &str, seed: u64, which: &str)
                                 if sec.secret_subkeys.is_empty() { continue; }
                                 let sub = sec.secret_subkeys[0].public_key();
                                 let (sfp, skid) = indep_identity(rl, &sub.to_bytes().map_err(e)?)?;
-                                let enc = if v6 {
+                                let enc = if sname == "pkesk_v6" {
                                     let mut b = MessageBuilder::from_bytes("", b"payload".to_vec()).seipd_v2(rng(seed), pgp::crypto::sym::SymmetricKeyAlgorithm::AES128, pgp::crypto::aead::AeadAlgorithm::Ocb, pgp::crypto::aead::ChunkSize::C64B);
                                     b.encrypt_to_key(rng(seed), &sub).map_err(e)?;
                                     b.to_vec(rng(seed)).map_err(e)?
@@ -591,7 +632,7 @@ pub fn run(cases_path: &str, out_path: &str, tier: &str, seed: u64, which: &str)
                                     b.to_vec(rng(seed)).map_err(e)?
                                 };
                                 let pk = deframe_stream(&enc)?.into_iter().find(|p| p.tag == 1).ok_or("no PKESK")?;
-                                if v6 {
+                                if sname == "pkesk_v6" {
                                     if pk.body[0] != 6 || pk.body[1] != 33 || pk.body[2] != 6 || pk.body[3..35] != sfp[..] { return Err(fail("v6 PKESK does not carry the recipient subkey's fingerprint".into())); }
                                 } else if pk.body[0] != 3 || pk.body[1..9] != skid[..] {
                                     return Err(fail("v3 PKESK does not carry the recipient subkey's key id".into()));
